@@ -21,7 +21,7 @@ TRUSTED = [
     "tracer components; torch<->numpy conversion",
 ]
 ASSUMPTIONS = [
-    "the framing theorem now holds for every length (the padding gathers the periodic symmetric extension, as np.pad does); before that repair L//2+1 <= N < L with a small shift read outside the storage",
+    "the framing theorem holds for every length and every shift >= 1, also frame_shift > frame_length (Kaldi left padding non-negative) (the padding gathers the periodic symmetric extension, as np.pad does); before that repair L//2+1 <= N < L with a small shift read outside the storage",
     "PyTorchDither statistics and torch.manual_seed reproducibility, TorchScript agreement, the wrappers and float32 working precision are checked by runs only",
 ]
 LEVEL_TEXT = (
@@ -93,9 +93,11 @@ def run(ctx, driver):
     jobs = []
     maxL = 7 if ctx.tier == "quick" else 11
     for L in range(1, maxL + 1):
-        for S in range(1, L + 1):
+        for S in list(range(1, L + 1)) + [L + 1, L + 2, 2 * L + 1, 3 * L]:
             for centered, kaldi in ((False, False), (True, False), (True, True)):
-                for N in sorted({0, L // 2, L // 2 + 1, L - 1, L, L + 1, 2 * L + 1, r.randrange(L, 3 * L + 2)}):
+                if kaldi and S // 2 > L // 2:
+                    continue
+                for N in sorted({0, L // 2, L // 2 + 1, L - 1, L, L + 1, 2 * L + 1, r.randrange(L, 3 * L + 2), S, S + S // 2, S + S // 2 + 1, 2 * S + 1}):
                     jobs.append((L, S, centered, kaldi, N, r.randrange(L), r.random() < 0.3))
     r.shuffle(jobs)
     jobs = jobs[: ctx.scale(500, 6000)]
